@@ -188,11 +188,13 @@ pub fn array_constructor_fn(
     if args.len() == 1
         && let Some(JsValue::Number(n)) = args.first()
     {
-        let len = *n as u32;
-        let mut elements = Vec::with_capacity(len as usize);
-        for _ in 0..len {
-            elements.push(JsValue::Undefined);
-        }
+        // new Array(len): len must be an array length (ToUint32(len) == len) that fits in memory
+        let mut elements = Vec::new();
+        let len = match crate::value::array_length_from_number(*n) {
+            Some(len) if crate::value::array_length_is_allocatable(&mut elements, len) => len,
+            _ => return Err(JsError::range_error("Invalid array length")),
+        };
+        elements.resize(len, JsValue::Undefined);
         let guard = interp.heap.create_guard();
         let arr = interp.create_array_from(&guard, elements);
         return Ok(Guarded::with_guard(JsValue::Object(arr), guard));
